@@ -391,10 +391,9 @@ def sumifs(sum_range, *args):
     if isinstance(coords, str):
         return coords
 
-    return sum(_numerics(
-        (sum_range[r][c] for r, c in coords),
-        keep_bools=True
-    ))
+    data = _numerics((sum_range[r][c] for r, c in coords), keep_bools=True)
+    # A returned string is the error value of a selected cell
+    return data if isinstance(data, str) else sum(data)
 
 
 def sumproduct(*args):
